@@ -127,6 +127,11 @@ func c04Tables() []c04Table {
 		{"dref", "dref", z(4), nil, box("url ", []byte{0, 0, 0, 1}), nil, []string{"dinf", "minf", "mdia", "trak", "moov"}},
 		{"elst v0", "elst", z(4), nil, c04Cat(c04U32(1000, 0), []byte{0, 1, 0, 0}), nil, []string{"edts", "trak", "moov"}},
 		{"elst v1", "elst", []byte{1, 0, 0, 0}, nil, c04Cat(c04U32(0, 1000, 0, 0), []byte{0, 1, 0, 0}), nil, []string{"edts", "trak", "moov"}},
+		// runs whose samples carry no per-sample field at all: the count is then not backed by any payload byte
+		{"trun no fields", "trun", z(4), nil, nil, nil, traf},
+		{"trun data offset only", "trun", []byte{0, 0, 0, 1}, c04U32(0), nil, nil, traf},
+		{"trun first sample flags only", "trun", []byte{0, 0, 0, 4}, c04U32(0x02000000), nil, nil, traf},
+		{"trun data offset + first sample flags only", "trun", []byte{0, 0, 0, 5}, c04U32(0, 0x02000000), nil, nil, traf},
 		{"trun durations", "trun", []byte{0, 0, 1, 0}, nil, c04U32(1000), nil, traf},
 		{"trun offset+duration+size", "trun", []byte{0, 0, 3, 1}, c04U32(0), c04U32(1000, 2), nil, traf},
 		{"trun all fields", "trun", []byte{0, 0, 0x0f, 5}, c04U32(0, 0), c04U32(1000, 2, 0, 0), nil, traf},
